@@ -61,6 +61,9 @@ type connSpec struct {
 type scenario struct {
 	conns   []connSpec
 	closeAt int // -1: no Swarm.Close during the schedule
+	// closeAgain >= 0: a second Swarm.Close call that many ms after the first (0: the same instant,
+	// racing with it); every Close call, not only the first, returns only after the notifications
+	closeAgain int
 	// yields[point]: how many times a goroutine reaching that schedule point of the swarm gives
 	// way to the other runnable goroutines (hook under build tag verif). Events scheduled at the
 	// same virtual instant race for real; the yields make the less likely orders likely.
@@ -101,7 +104,7 @@ func init() {
 }
 
 func drawScenario(rt *rapid.T) *scenario {
-	sc := &scenario{closeAt: -1}
+	sc := &scenario{closeAt: -1, closeAgain: -1}
 	n := rapid.IntRange(1, 5).Draw(rt, "nconns")
 	for i := 0; i < n; i++ {
 		c := connSpec{
@@ -135,6 +138,9 @@ func drawScenario(rt *rapid.T) *scenario {
 	}
 	if rapid.IntRange(0, 2).Draw(rt, "swarmClose") == 0 {
 		sc.closeAt = rapid.SampledFrom([]int{0, 1, 2, 3, 5, 8, 12, 25}).Draw(rt, "closeAt")
+		if rapid.IntRange(0, 2).Draw(rt, "closeAgain?") == 0 {
+			sc.closeAgain = rapid.SampledFrom([]int{0, 0, 1, 2, 5}).Draw(rt, "closeAgain")
+		}
 	}
 	for i, n := 0, rapid.SampledFrom([]int{0, 0, 0, 1, 2}).Draw(rt, "ntransients"); i < n; i++ {
 		sc.transients = append(sc.transients, transientSpec{
@@ -143,20 +149,16 @@ func drawScenario(rt *rapid.T) *scenario {
 			at:   rapid.SampledFrom([]int{0, 1, 2, 5, 10, 20}).Draw(rt, "transientAt"),
 		})
 	}
-	if len(sc.transients) > 0 {
-		// The swarm dispatches under its registry lock and Notify / StopNotify wait for that lock,
-		// which is not a durable wait: a callback sleeping (virtual time) during such a wait would
-		// stall the bubble. Callbacks do not linger in these cases.
-		for i := range sc.conns {
-			sc.conns[i].block, sc.conns[i].dblock = [2]int{}, [2]int{}
-		}
-	}
 	if rapid.Bool().Draw(rt, "yields?") {
 		sc.yields = map[string]int{}
 		for _, p := range yieldPoints {
 			sc.yields[p] = rapid.SampledFrom([]int{0, 0, 1, 3, 10, 40}).Draw(rt, "yield")
 			if strings.HasPrefix(p, "addConn:") && rapid.Bool().Draw(rt, "sleep?") {
 				sc.yields[p] = -rapid.SampledFrom([]int{1, 1000, 1000, 5000}).Draw(rt, "sleepMicros")
+				if len(sc.transients) > 0 || sc.closeAgain >= 0 {
+					// somebody may wait for a lock meanwhile (not a durable wait): no virtual sleeps
+					sc.yields[p] = 40
+				}
 			}
 		}
 	}
@@ -170,6 +172,9 @@ func (sc *scenario) String() string {
 			c.block, c.dblock, c.closeInConnected, c.closeInDisconnected, c.streams)
 	}
 	fmt.Fprintf(&b, "swarmClose=%d", sc.closeAt)
+	if sc.closeAgain >= 0 {
+		fmt.Fprintf(&b, "(+again@%d)", sc.closeAt+sc.closeAgain)
+	}
 	for _, tr := range sc.transients {
 		fmt.Fprintf(&b, " transient{%s pos=%d at=%d}", tr.kind, tr.pos, tr.at)
 	}
@@ -231,6 +236,23 @@ type notifiee struct {
 	specs map[string]*connSpec // by remote multiaddr
 	conns *sync.Map            // remote multiaddr -> latest network.Conn (for removal events)
 	byID  *sync.Map            // conn ID -> network.Conn
+	// spin: linger by yielding instead of sleeping. Needed whenever somebody may wait for a lock
+	// the swarm holds while it dispatches (Notify/StopNotify, a second Swarm.Close): such a
+	// wait is not durable, so virtual time cannot advance while it lasts.
+	spin bool
+}
+
+func (n *notifiee) linger(ms int) {
+	if ms <= 0 {
+		return
+	}
+	if n.spin {
+		for i := 0; i < 25*ms; i++ {
+			runtime.Gosched()
+		}
+		return
+	}
+	time.Sleep(time.Duration(ms) * time.Millisecond)
 }
 
 func (n *notifiee) Listen(network.Network, ma.Multiaddr)      {}
@@ -242,9 +264,7 @@ func (n *notifiee) Connected(_ network.Network, c network.Conn) {
 	n.conns.Store(id, c)
 	n.byID.Store(c.ID(), c)
 	if sp := n.specs[id]; sp != nil {
-		if sp.block[n.idx] > 0 {
-			time.Sleep(time.Duration(sp.block[n.idx]) * time.Millisecond)
-		}
+		n.linger(sp.block[n.idx])
 		if sp.closeInConnected == n.idx {
 			c.Close()
 		}
@@ -255,9 +275,7 @@ func (n *notifiee) Disconnected(_ network.Network, c network.Conn) {
 	r := n.rec.enter("disconnected", n.idx, c)
 	defer n.rec.leave(r)
 	if sp := n.specs[id]; sp != nil {
-		if sp.dblock[n.idx] > 0 {
-			time.Sleep(time.Duration(sp.dblock[n.idx]) * time.Millisecond)
-		}
+		n.linger(sp.dblock[n.idx])
 		if sp.closeInDisconnected {
 			c.Close() // misuse the swarm promises to tolerate
 		}
@@ -374,8 +392,9 @@ func runScenario(t *testing.T, rt *rapid.T, name string, sc *scenario) {
 			sp := &sc.conns[i]
 			specs[connAddr(i, sp).String()] = sp
 		}
-		n0 := &notifiee{idx: 0, rec: rec, specs: specs, conns: conns, byID: byID}
-		n1 := &notifiee{idx: 1, rec: rec, specs: specs, conns: conns, byID: byID}
+		spin := len(sc.transients) > 0 || sc.closeAgain >= 0
+		n0 := &notifiee{idx: 0, rec: rec, specs: specs, conns: conns, byID: byID, spin: spin}
+		n1 := &notifiee{idx: 1, rec: rec, specs: specs, conns: conns, byID: byID, spin: spin}
 		var trs []*transient
 		for i, ts := range sc.transients {
 			trs = append(trs, &transient{idx: 10 + i, spec: ts, rec: rec, sw: sw})
@@ -485,8 +504,15 @@ func runScenario(t *testing.T, rt *rapid.T, name string, sc *scenario) {
 			at(sc.closeAt, func() {
 				closeStarted.Store(rec.seq.Add(1))
 				sw.Close()
-				closeReturned.Store(rec.seq.Add(1))
+				closeReturned.CompareAndSwap(0, rec.seq.Add(1)) // the first Close call to return counts
 			})
+		}
+		if sc.closeAt >= 0 && sc.closeAgain >= 0 {
+			at(sc.closeAt+sc.closeAgain, func() {
+				sw.Close()
+				closeReturned.CompareAndSwap(0, rec.seq.Add(1))
+			})
+			labels["second-close-call"] = true
 		}
 		// every scheduled action has returned, every callback delay has elapsed, and nothing is
 		// runnable any more (in this order: an action that returns late must not let the audit
